@@ -464,6 +464,14 @@ def analyse_timeline(algo, cfg, rec, out, priors=None):
     for target, online, rule, moment in spec["pairs"]:
         pv = PairView(obs, target, online, rule, moment, tau)
         idx = [i for i in range(1, len(obs)) if pv.known(i)]
+        if cfg.get("supply_only") and target not in obs[0]["snap"]:
+            # the argument left at None: the routine creates this target itself and the recorder sees it only
+            # once the logger is shown it, i.e. from the middle of a step on.  A timeline that starts there
+            # cannot tell a no-op sync from a missed one (false alarm witness
+            # replays/regress/C06_hist_mrq_falsealarm_unsupplied_target_first_seen_mid_step.json): only the
+            # supplied target is analysed; storage and the final state of both are still checked
+            labels.append(f"not-supplied:{target}")
+            continue
         if not idx:
             labels.append(f"unobserved:{target}")
             continue
